@@ -435,3 +435,26 @@ package bgp
 // GetAS returns a freshly allocated list and changes nothing the caller can see
 //@ interface AsPathParamInterface.GetAS
 //@   modifies nothing
+
+// ---------------------------------------------------------------------------------------------
+// OPEN validation (C07: "every invalid OPEN ... yields the NOTIFICATION code/subcode the RFCs prescribe";
+// C08: "hold time ... 1-2 is refused")
+//@ props C07 C08
+//@ interface ParameterCapabilityInterface.Code
+//@   pure
+//@ spec errIs(e error, code int, sub int) bool = isMsgErr(e) && e.(*MessageError).TypeCode == code && e.(*MessageError).SubTypeCode == sub
+//@ func ValidateOpenMsg
+//@   requires m != nil
+//@   claims post
+//@   ensures m.Version != 4 ==> errIs(result1, BGP_ERROR_OPEN_MESSAGE_ERROR, BGP_ERROR_SUB_UNSUPPORTED_VERSION_NUMBER)
+//@   ensures m.Version == 4 && m.ID.IsUnspecified() ==> errIs(result1, BGP_ERROR_OPEN_MESSAGE_ERROR, BGP_ERROR_SUB_BAD_BGP_IDENTIFIER)
+//@   ensures m.Version == 4 && !m.ID.IsUnspecified() && (m.HoldTime == 1 || m.HoldTime == 2) ==> result1 != nil
+//@   ensures result1 != nil ==> result0 == 0 && isMsgErr(result1) && result1.(*MessageError).TypeCode == BGP_ERROR_OPEN_MESSAGE_ERROR
+//@   ensures result1 != nil ==> result1.(*MessageError).SubTypeCode == BGP_ERROR_SUB_UNSUPPORTED_VERSION_NUMBER || result1.(*MessageError).SubTypeCode == BGP_ERROR_SUB_BAD_BGP_IDENTIFIER || result1.(*MessageError).SubTypeCode == BGP_ERROR_SUB_BAD_PEER_AS || result1.(*MessageError).SubTypeCode == BGP_ERROR_SUB_UNACCEPTABLE_HOLD_TIME
+//@   ensures result1 == nil ==> m.Version == 4 && !m.ID.IsUnspecified() && !(result0 == myAS && m.ID == myId) && (expectedAS == 0 || result0 == expectedAS) && (m.HoldTime >= 3 || m.HoldTime == 0)
+//@   ensures result1 != nil && result1.(*MessageError).SubTypeCode == BGP_ERROR_SUB_UNACCEPTABLE_HOLD_TIME ==> m.HoldTime == 1 || m.HoldTime == 2
+//@   ensures result1 != nil && result1.(*MessageError).SubTypeCode == BGP_ERROR_SUB_BAD_PEER_AS ==> expectedAS != 0
+//@ props C07
+//@ func NewBGPNotificationMessage
+//@   modifies nothing
+//@   ensures result != nil && fresh(result)
